@@ -76,7 +76,7 @@ Definition loracle (c : lcase) : list nat :=
       end
   end.
 
-(* 211: the file lies in the domain of the theorem parse_render_lst *)
+(* 211: the file lies in the domain (version_ok, wblock_ok) of the row-level theorems parse_render_lst_term / parse_render_lst_tere *)
 Definition lguards (c : lcase) : list nat :=
   match lc_written c with
   | Some (v, bs) => tag (negb (version_ok v && forallb wblock_ok bs)) 211
